@@ -120,7 +120,9 @@ def check_step(d: vecu.Driver, ref: vecu.RefState, b: bytes, off: set[str], step
             if reply[0] == 0x7F:
                 if len(reply) != 3 or reply[1] != sid:
                     out.append(("C13/structure/negative-names-other-service", f"{ctx}: reply {reply.hex()}"))
-                elif exp.get("wf") and reply[2] == 0x13 and sid not in vecu.RANDOM_FORMAT_SIDS and not off:
+                elif exp.get("wf") and reply[2] == 0x13 and not off and \
+                        (sid not in vecu.RANDOM_FORMAT_SIDS or case["params"].get("p_correct_payload_format") == 1.0):
+                    # (the handlers of 0x31 / 0x2E / 0x2F answer 0x13 at random unless the model says p_correct_payload_format = 1)
                     out.append((f"C13/incorrect-format/well-formed-request-answered-0x13/sid{sid:02x}", f"{ctx}: request is well-formed per ISO layout, server says 0x13"))
                 elif e == "POSITIVE":
                     out.append((f"C13/{rule}/negative-instead-of-positive", f"{ctx}: reply {reply.hex()}"))
@@ -157,8 +159,8 @@ def check(case: dict[str, Any]) -> list[tuple[str, str]]:
 def shards(tier: str) -> list[dict[str, Any]]:
     if tier == "quick":
         return [{"what": "gen", "n": 110} for _ in range(11)] + [{"what": "sweep", "seeds": [s]} for s in (1, 2, 3, 4)] + \
-            [{"what": "switches", "seed": 5}]
-    return [{"what": "gen", "n": 2500} for _ in range(12)] + [{"what": "sweep", "seeds": [s, s + 100]} for s in range(1, 9)] + \
+            [{"what": "switches", "seed": 5}] + [{"what": "handlers", "seeds": list(range(i, 24, 2))} for i in range(2)]
+    return [{"what": "handlers", "seeds": list(range(i, 600, 4))} for i in range(4)] + [{"what": "gen", "n": 2500} for _ in range(12)] + [{"what": "sweep", "seeds": [s, s + 100]} for s in range(1, 9)] + \
         [{"what": "switches", "seed": 5}]
 
 
@@ -187,6 +189,15 @@ def run_shard(spec: dict[str, Any], seed: int) -> Collector:
                         body({"seed": s, "params": params, "off": [], "ops": pre + ch})
                 col.exhaustive_parts.append(f"seed {s} params {params or 'default'}: sid 0..255 x (no payload, every single payload byte) in the default session"
                                             + (f" and in session {other[0]:#x}" if other else ""))
+    elif w == "handlers":
+        # dense models whose handlers never answer 0x13 at random: every offered (service, sub-function) pair with several payload
+        # shapes, in every session one change away from the default (the same histories as C14's handler sweep)
+        from vf.props.c14 import handler_sweep
+
+        for sd in spec["seeds"]:
+            body(dict(handler_sweep(sd), off=[]))
+        col.exhaustive_parts.append(f"dense models, seeds {spec['seeds'][0]}..{spec['seeds'][-1]}: every offered (service, sub-function) pair x payload shapes "
+                                    "in every session one change away from the default")
     elif w == "switches":
         import itertools
 
